@@ -35,6 +35,16 @@ type audioPayloader interface {
 }
 
 func c16Check(c *fw.Ctx, name string, p audioPayloader, mtu int, in []byte) bool {
+	if in != nil && (len(in)+mtu)%3 == 0 {
+		// the same bytes as a window into a larger buffer (spare capacity holding other data): only len(in) bytes are the input
+		var spare func() bool
+		in, spare = fw.Roomy(in, mtu+33)
+		defer func() {
+			if spare() {
+				c.Fail("C16/"+name+"/wrote-beyond-len-of-input", "the payloader wrote into the spare capacity of the input slice", fw.W("mtu", mtu, "input_len", len(in)))
+			}
+		}()
+	}
 	pristine := append([]byte(nil), in...)
 	var out [][]byte
 	pv, st := fw.Guard(func() { out = p.Payload(uint16(mtu), in) })
